@@ -80,6 +80,12 @@ def symexec(path, skip_first=False):
                     if isinstance(t, ast.Name):
                         ps.env[t.id] = v
                     elif isinstance(t, (ast.Tuple, ast.List)):
+                        if isinstance(v, (ast.Tuple, ast.List)) and len(v.elts) == len(t.elts) \
+                                and all(isinstance(x, ast.Name) for x in t.elts) and not any(isinstance(x, ast.Starred) for x in v.elts):
+                            # a, b = X, Y: elementwise (the right-hand side was substituted before any target is bound)
+                            for x, xv in zip(t.elts, v.elts):
+                                ps.env[x.id] = xv
+                            continue
                         for x in t.elts:
                             if isinstance(x, ast.Name):
                                 ps.env.pop(x.id, None)
